@@ -210,6 +210,8 @@ Verdict judgeImpl(const Case& c, bool geo, bool gp) {
   const Paths64& open = dprec >= 0 ? openS : c.P("open");
   if (dprec >= 0) ST.count("route_ClipperD_precision_" + std::to_string(dprec));
   auto fromD = [&](const PathsD& pp) { Paths64 r; for (auto& p : pp) { Path64 q; for (auto& pt : p) q.emplace_back((int64_t)std::llround(pt.x * dsc), (int64_t)std::llround(pt.y * dsc)); r.push_back(q); } return r; };
+  bool viaTree = c.I("viaTree", 0) != 0;   // closed paths obtained by executing into a PolyTree64 / PolyTreeD and flattening it
+  if (viaTree) ST.count("route_via_polytree");
   // executes one configuration through the chosen route; closedOnly selects the overload without an open-paths argument
   auto solve = [&](ClipType ct, FillRule fr, bool pc, bool rev, bool closedOnly, Paths64& sol, Paths64& solOpen) {
     if (dprec < 0) {
@@ -217,6 +219,12 @@ Verdict judgeImpl(const Case& c, bool geo, bool gp) {
       cl.PreserveCollinear(pc); cl.ReverseSolution(rev);
       cl.AddSubject(subj); cl.AddClip(clip);
       if (!open.empty()) cl.AddOpenSubject(open);
+      if (viaTree) {
+        PolyTree64 t;
+        bool ok = closedOnly ? cl.Execute(ct, fr, t) : cl.Execute(ct, fr, t, solOpen);
+        sol = PolyTreeToPaths64(t);
+        return ok;
+      }
       return closedOnly ? cl.Execute(ct, fr, sol) : cl.Execute(ct, fr, sol, solOpen);
     }
     ClipperD cl(dprec);
@@ -224,7 +232,9 @@ Verdict judgeImpl(const Case& c, bool geo, bool gp) {
     cl.AddSubject(TransformPaths<double, int64_t>(c.P("subj"))); cl.AddClip(TransformPaths<double, int64_t>(c.P("clip")));
     if (!open.empty()) cl.AddOpenSubject(TransformPaths<double, int64_t>(c.P("open")));
     PathsD s, so;
-    bool ok = closedOnly ? cl.Execute(ct, fr, s) : cl.Execute(ct, fr, s, so);
+    bool ok;
+    if (viaTree) { PolyTreeD t; ok = closedOnly ? cl.Execute(ct, fr, t) : cl.Execute(ct, fr, t, so); s = PolyTreeToPathsD(t); }
+    else ok = closedOnly ? cl.Execute(ct, fr, s) : cl.Execute(ct, fr, s, so);
     sol = fromD(s); solOpen = fromD(so);
     return ok;
   };
@@ -314,6 +324,7 @@ Case genDeg() {
   if (G::chance(25)) c.p["open"] = GEN::degPaths(2, 6, M, pool);
   ST.count("magclass_" + std::to_string(cls));
   if (G::chance(20)) c.i["dprec"] = G::range(0, 3);
+  if (G::chance(25)) c.i["viaTree"] = 1;
   return c;
 }
 Case genGp() {
@@ -323,6 +334,7 @@ Case genGp() {
   c.p["subj"] = g.subj;
   c.p["clip"] = g.clip;
   if (G::chance(20)) c.i["dprec"] = G::range(0, 3);
+  if (G::chance(25)) c.i["viaTree"] = 1;
   return c;
 }
 Case genRect() {
@@ -334,6 +346,7 @@ Case genRect() {
   c.p["subj"] = GEN::rectPaths(L, 1, 3);
   c.p["clip"] = GEN::rectPaths(L, 0, 3);
   if (G::chance(20)) c.i["dprec"] = G::range(0, 3);
+  if (G::chance(25)) c.i["viaTree"] = 1;
   return c;
 }
 
